@@ -418,6 +418,7 @@ package core
 //@   ensures clean(*c.line)
 //@   ensures [insert] *c.line == old(*c.line)[:clampi(old(c.pos), old(len(*c.line)))] + stripz(r) + old(*c.line)[clampi(old(c.pos), old(len(*c.line))):]
 //@   ensures [advance] c.pos == clampi(old(c.pos), old(len(*c.line))) + len(r)
+//@   ensures [mark-in-range] -1 <= c.mark && c.mark <= max(len(*c.line) - 1, -1)
 
 //@ func (*Cursor).BeginningOfLine
 //@   props C06 C01 C16
@@ -590,6 +591,7 @@ package core
 //@   terminates
 //@   requires k != nil && Stdin != nil && !indead() && 0 <= inpos() && inpos() <= len(instream()) && !k.waiting && len(k.macroKeys) == 0 && noreports()
 //@   assigns k.keysOnce, k.reading, k.mutex, k.matched, k.macroKeys, k.buf, inpos(), indead()
+//@   ensures [returns-a-valid-rune] validrune(result0)
 //@   ensures [uses-buffered-keys-first] old(len(k.buf)) > 0 ==> inpos() == old(inpos())
 //@   ensures [consumes-exactly-one-character] old(len(unread(k))) > 0 && old(firstw(unread(k))) <= old(len(unread(k))) ==> unread(k) == old(unread(k))[old(firstw(unread(k))):]
 //@   ensures [returns-that-character] old(len(k.buf)) == 0 && old(inpos()) < len(instream()) && instream()[old(inpos())] < 128 && 0 <= instream()[old(inpos())] ==> result0 == instream()[old(inpos())]
@@ -644,3 +646,46 @@ package core
 //@   loop 1 decreases bpos + 1
 //@   loop 2 invariant 0 <= pos && pos <= epos && epos <= len(*l) && -1 <= bpos && bpos <= pos
 //@   loop 2 decreases len(*l) - epos
+
+// C01: replacing the selected runes.  What ReplaceWith assumes of the function it is given (callers pass
+// unicode.ToLower / ToUpper, a case-swapping closure, or a constant function of a key that was read).
+//@ fntype param:(*Selection).ReplaceWith.replacer
+//@   assumed a pure character function: no effect on the library's state, total, returns a valid rune for a valid rune
+//@   pure
+//@   ensures validrune(p0) ==> validrune(result)
+
+// selinv: an inactive selection holds no stale positions (Reset and NewSelection establish it; Selection.Len
+// slices the line with what Pos returns and Pos returns (-1, -1) for an inactive selection)
+//@ pred selinv(s *Selection) = (s.active || s.bpos == s.epos) && !(s.bpos > len(*s.line) && s.epos > len(*s.line)) && s.bpos >= -1 && s.epos >= -1
+
+//@ func (*Selection).Len
+//@   props C01 C06
+//@   terminates
+//@   requires svalid(s) && selinv(s)
+//@   assigns s.bpos, s.epos, s.cursor.pos, s.cursor.mark
+//@   ensures result >= 0
+
+//@ func (*Selection).ReplaceWith
+//@   props C01 C06
+//@   terminates
+//@   requires svalid(s) && selinv(s) && replacer != nil && clean(*s.line)
+//@   assigns *s.line, s.all, s.cursor.pos, s.cursor.mark
+//@   ensures [same-length] len(*s.line) == old(len(*s.line))
+//@   ensures [stays-well-formed] clean(*s.line)
+//@   loop 1 invariant svalid(s) && len(*s.line) == old(len(*s.line)) && clean(*s.line) && 0 <= pos && epos <= len(*s.line)
+//@   loop 1 decreases epos - pos
+
+// C01: surround regions are only ever registered at positions that were found
+//@ func (*Line).FindSurround
+//@   props C01
+//@   terminates
+//@   requires l != nil
+//@   pure
+//@   ensures [found-or-minus-one] result0 >= -1 && result0 < len(*l) && result1 >= -1 && result1 < len(*l)
+
+//@ func (*Selection).MarkSurround
+//@   props C01 C06
+//@   terminates
+//@   requires svalid(s)
+//@   requires [both-positions-found] bpos >= 0 && epos >= 0
+//@   assigns s.active, s.surrounds
